@@ -34,3 +34,118 @@ def typeHints (S : Schema) (d : StructDef) : List (String × String) :=
   (d.fields.drop d.inherited).filterMap fun f => (typeHint S f).map fun h => (printerName f.name, h)
 
 end SymbolVerif.Codec
+
+namespace SymbolVerif.Codec
+
+/-! ### method bodies of `serialize` / `_serialize` and `size`, as text
+
+A port of `StructFormatter.generate_serialize_field(s)`, `generate_size_field`, `generate_condition(prefix_field=True)`
+and the printers' `store` / `get_size`, over the IR. The harness compares these lines with the bodies found in the
+generated modules (shipped and freshly generated from random schemas), class by class. -/
+
+def pyBool (b : Bool) : String := if b then "True" else "False"
+
+def toBytesCall (value : String) (w : Nat) (signed : Bool) : String :=
+  value ++ ".to_bytes(" ++ toString w ++ ", byteorder='little', signed=" ++ pyBool signed ++ ")"
+
+def sortAccessor (key : String) : String :=
+  "lambda e: e." ++ key ++ ".comparer() if hasattr(e." ++ key ++ ", 'comparer') else e." ++ key
+
+/-- the way a condition value is written: `Enum.MEMBER` for an enum discriminant, the number otherwise; and the postfix
+    of the discriminant (`_computed` for a `@sizeref` member) -/
+def condOperands (S : Schema) (d : StructDef) (c : Cond) : String × String :=
+  match d.fields.find? (fun g => g.name == c.field) with
+  | none => ("<unknown condition member>", "")
+  | some cf =>
+    match cf.kind with
+    | .ref ty _ =>
+      match S.find ty with
+      | some (.enum _ _ _ members) =>
+        let name := match members.find? (fun m => m.2 == c.value) with
+          | some m => m.1
+          | none => toString c.value
+        (ty ++ "." ++ name, "")
+      | _ => (toString c.value, "")
+    | .sizeRef .. => (toString c.value, "_computed")
+    | _ => (toString c.value, "")
+
+/-- `generate_condition(field, prefix_field=True)` without the trailing newline; `none` for an unconditional member -/
+def conditionLine (S : Schema) (d : StructDef) (f : Field) : Option String :=
+  match f.cond with
+  | none => none
+  | some c =>
+    if c.viaSelf then some ("if self." ++ f.name ++ ":")
+    else
+      let op := match c.op with | .eq => "==" | .ne => "!=" | .isIn => "in" | .notIn => "not in"
+      let operands := condOperands S d c
+      some ("if " ++ operands.1 ++ " " ++ op ++ " self." ++ c.field ++ operands.2 ++ ":")
+
+def arraySizeCall (attr : String) (align : Nat) (padLast : Bool) : String :=
+  if align != 0 then
+    "ArrayHelpers.size(self." ++ attr ++ ", " ++ toString align ++ ", skip_last_element_padding=" ++ pyBool (!padLast) ++ ")"
+  else "ArrayHelpers.size(self." ++ attr ++ ")"
+
+/-- `printer.store(value) + comment` of one member -/
+def storeExpr (d : StructDef) (f : Field) : String :=
+  let attr := printerName f.name
+  let find (n : String) : Option Field := d.fields.find? (·.name == n)
+  match f.kind with
+  | .int w s => toBytesCall ("self._" ++ attr) w s
+  | .reserved w s _ => toBytesCall ("self._" ++ attr) w s
+  | .sizeF w => toBytesCall "self.size" w false
+  | .count w s target absent =>
+    let x := "self._" ++ printerName target
+    let v := match absent with
+      | some a => "(len(" ++ x ++ ") if " ++ x ++ " is not None else " ++ toString a ++ ")"
+      | none => "len(" ++ x ++ ")"
+    toBytesCall v w s ++ "  # " ++ f.name
+  | .byteSize w s target =>
+    let call := match find target with
+      | some ⟨_, .array _ _ align padLast _, _⟩ => arraySizeCall (printerName target) align padLast
+      | _ => "<unknown>"
+    toBytesCall call w s ++ "  # " ++ f.name
+  | .sizeOf w s target => toBytesCall ("self." ++ printerName target ++ ".size") w s ++ "  # " ++ f.name
+  | .sizeRef w s _ _ => toBytesCall ("self." ++ attr ++ "_computed") w s
+  | .ref _ _ => "self._" ++ attr ++ ".serialize()"
+  | .barray _ => "self._" ++ attr
+  | .array _ mode align padLast sortKey =>
+    if align != 0 then
+      "ArrayHelpers.write_variable_size_elements(self._" ++ attr ++ ", " ++ toString align ++
+        ", skip_last_element_padding=" ++ pyBool (!padLast) ++ ")"
+    else match mode, sortKey with
+      | .fill, _ => "ArrayHelpers.write_array(self._" ++ attr ++ ")"
+      | _, some k => "ArrayHelpers.write_array(self._" ++ attr ++ ", " ++ sortAccessor k ++ ")"
+      | _, none => "ArrayHelpers.write_array(self._" ++ attr ++ ")"
+
+def guarded (cond : Option String) (line : String) : List String :=
+  match cond with
+  | none => [line]
+  | some c => [c, "\t" ++ line]
+
+/-- the own (not inherited) members, in layout order -/
+def ownFields (d : StructDef) : List Field := d.fields.drop (if d.base.isSome then d.inherited else 0)
+
+/-- the lines of `generate_serialize_fields` -/
+def serializeFieldLines (S : Schema) (d : StructDef) : List String :=
+  (ownFields d).flatMap fun f => guarded (conditionLine S d f) ("buffer += " ++ storeExpr d f)
+
+/-- body of `serialize` of a struct class -/
+def serializeBody (S : Schema) (d : StructDef) : List String :=
+  ["buffer = bytearray()"] ++ (if d.base.isSome then ["super()._serialize(buffer)"] else []) ++
+  (if d.abstract then ["self._serialize(buffer)"] else serializeFieldLines S d) ++ ["return buffer"]
+
+/-- `printer.get_size()` of one member -/
+def sizeExpr (f : Field) : String :=
+  let attr := printerName f.name
+  match f.kind with
+  | .int w _ | .reserved w _ _ | .sizeF w | .count w _ _ _ | .byteSize w _ _ | .sizeOf w _ _ | .sizeRef w _ _ _ => toString w
+  | .ref _ _ => "self." ++ attr ++ ".size"
+  | .barray _ => "len(self._" ++ attr ++ ")"
+  | .array _ _ align padLast _ => arraySizeCall attr align padLast
+
+/-- body of the `size` property -/
+def sizeBody (S : Schema) (d : StructDef) : List String :=
+  ["size = 0"] ++ (if d.base.isSome then ["size += super().size"] else []) ++
+  ((ownFields d).flatMap fun f => guarded (conditionLine S d f) ("size += " ++ sizeExpr f)) ++ ["return size"]
+
+end SymbolVerif.Codec
